@@ -349,6 +349,96 @@ def der_mut_worker(seeds):
     return acc
 
 
+# ---- every length form of every content length ---------------------------------
+def _content_of_len(kind, L):
+    """content octets of exactly L bytes that are valid for the class"""
+    if kind in ("octet", "object"):
+        return asc(L, 5)
+    if kind == "bit":
+        return (b"\x00" + asc(L - 1, 5)) if L else None
+    if kind == "int":
+        return (b"\x01" + asc(L - 1, 9)) if L else None
+    if kind in ("seq", "set"):
+        if L == 1:
+            return None
+        if kind == "set":             # equal-type members, sorted: NULLs are identical -> use distinct OCTET STRINGs
+            if L % 3 and L < 6:
+                return None
+            out, k = b"", 0
+            while len(out) + 3 <= L - (3 if (L - len(out)) % 3 == 0 else 4 if (L - len(out)) % 3 == 1 else 5) or len(out) < L:
+                rem = L - len(out)
+                if rem == 0:
+                    break
+                take = 3 if rem % 3 == 0 or rem > 5 else rem
+                if take < 2:
+                    return None
+                out += bytes([0x04, take - 2]) + bytes([k & 255] * (take - 2))
+                k += 1
+            return b"".join(sorted(out[i:i + 3] for i in range(0, len(out), 3))) if L % 3 == 0 else None
+        out = b"\x05\x00" * (L // 2)
+        if L % 2:
+            out = out[:-2] + b"\x01\x01\xff"
+        return out
+    raise ValueError(kind)
+
+
+def length_forms(L):
+    """-> (canonical length octets, [non-minimal / reserved forms])"""
+    canon = ref_len(L)
+    bad = []
+    for n in (1, 2, 3, 4):
+        if L < (1 << (8 * n)):
+            f = bytes([0x80 | n]) + L.to_bytes(n, "big")
+            if f != canon:
+                bad.append(f)
+    return canon, bad
+
+
+def der_lenform_worker(shards):
+    from Crypto.Util import asn1
+    acc = Acc()
+    kinds = [("octet", 0x04, lambda: asn1.DerOctetString()), ("object", 0x0C, lambda: asn1.DerObject()),
+             ("bit", 0x03, lambda: asn1.DerBitString()), ("int", 0x02, lambda: asn1.DerInteger()),
+             ("seq", 0x30, lambda: asn1.DerSequence()), ("set", 0x31, lambda: asn1.DerSetOf())]
+    for lo, hi in shards:
+        for L in range(lo, hi):
+            for kind, tag, mk in kinds:
+                content = _content_of_len(kind, L)
+                if content is None:
+                    continue
+                canon, bad = length_forms(L)
+                # as a top-level element, and as a member of an outer SEQUENCE (inner length form)
+                for nested in (False, True):
+                    for form, must_accept in [(canon, True)] + [(b, False) for b in bad]:
+                        tlv = bytes([tag]) + form + content
+                        x = tlv if not nested else ref_tlv_enc(0x30, b"\x02\x01\x07" + tlv)
+                        for strict in (False, True):
+                            acc.count("evaluations")
+                            obj = mk() if not nested else asn1.DerSequence()
+                            try:
+                                obj.decode(x, strict=strict)
+                                res = "accept"
+                            except ValueError:
+                                res = "ValueError"
+                            except Exception as e:  # noqa
+                                res = type(e).__name__
+                                acc.violation("C13/der-decode/%s@%s" % (res, exc_site(e)),
+                                              "decode of %s raised %s" % (short(x), res), {"part": "lenform", "L": L})
+                                continue
+                            acc.seen("classes", ("lenform", kind, nested, len(form), must_accept, res))
+                            if res == "accept" and not must_accept:
+                                acc.violation("C13/der-strict/nonminimal-length-accepted/%s" % ("member" if nested else kind),
+                                              "%s with %d content octets and the non-minimal length octets %s was accepted (strict=%s)"
+                                              % ("member of a SEQUENCE" if nested else kind, L, form.hex(), strict),
+                                              {"part": "lenform", "L": L}, size=L)
+                            if res != "accept" and must_accept:
+                                acc.violation("C13/der-rt/canonical-length-rejected/%s" % ("member" if nested else kind),
+                                              "%s with %d content octets and canonical length %s was rejected (strict=%s)"
+                                              % (kind, L, form.hex(), strict), {"part": "lenform", "L": L}, size=L)
+    acc.sample({"part": "der-length-forms", "content_lengths": [lo, hi]})
+    return acc
+
+
 # ---- round trips -------------------------------------------------------------
 def der_rt_worker(shards):
     from Crypto.Util import asn1
@@ -1158,6 +1248,9 @@ def run(ctx):
     ctx.pmap(der_short_worker, chunks(der_short_shards(q), W * 4))
     # DER: mutation closure
     ctx.pmap(der_mut_worker, chunks(der_seeds(), W))
+    # DER: every length form (canonical + all non-minimal forms up to 4 length octets) of every content length
+    top = 300 if q else 1100
+    ctx.pmap(der_lenform_worker, [[(a, min(a + 25, top + 1))] for a in range(0, top + 1, 25)] + [[(65535, 65537)]])
     # DER: round trips
     rng = 8000 if q else 70000
     step = 2000
@@ -1195,7 +1288,7 @@ def run(ctx):
         "exhaustive": not a.caps,
         "max_import_call_events": 2000 * (max(a.distinct.get("call_buckets", {0})) + 1),
         "parts": ["der-short(all strings len<=2; len 3-5 over 16-symbol alphabet%s)" % (" [quick: len5 over 8 symbols]" if q else ""),
-                  "der-mutation-closure(17 seeds)", "der-roundtrip(int range +-%d, 2^k+-1 k<=2100, oids, tags 0..30, nested)" % rng,
+                  "der-mutation-closure(17 seeds)", "der-length-forms(content lengths 0..%d and 65535/65536 x canonical + every non-minimal form of 1..4 length octets, top-level and as SEQUENCE member)" % top, "der-roundtrip(int range +-%d, 2^k+-1 k<=2100, oids, tags 0..30, nested)" % rng,
                   "padding(bs 1..32,255 x len 0..2bs x 3 styles; all strings bs<=2; tail patterns)",
                   "long_to_bytes(n<%d x blocksize 0..17)" % top, "rfc1751", "pem(roundtrip+mutation closure)",
                   "key-import mutation closure (%d keys)" % nk, "crafted fields/OIDs", "pkcs8 wrap/unwrap"],
@@ -1210,6 +1303,8 @@ def replay(case, acc):
     part = case["part"]
     if part == "der":
         der_check(case["x"], acc, "replay")
+    elif part == "lenform":
+        acc.merge(der_lenform_worker([(case["L"], case["L"] + 1)]))
     elif part == "unpad":
         pad_case(case["p"], case["bs"], case["style"], acc)
     elif part == "pad":
